@@ -126,7 +126,7 @@ typedef struct sim_state {
 	char      vclass[48];
 	char      detail[400];
 	char      vsite[48];
-	char      ctx_tag[48];
+	char      ctx_tag[128];
 	int       deferred;
 	char      dclass[48];
 	char      ddetail[400];
